@@ -123,6 +123,7 @@ section
 variable {ds : List Decl} {st : PState} {gs1 gs : List Obj} (p : Parsed ds st gs1 gs) {x : Name} (ok : ObjOK ds x)
 include p ok
 
+omit p in
 theorem ObjOK.align_pos {d : ObjDecl} (hd : d ∈ objDecls ds x) : 1 ≤ d.ty.align := by
   have := ok.agree
   simp only [tysAgree, Bool.and_eq_true, List.all_eq_true, decide_eq_true_eq] at this
@@ -158,6 +159,7 @@ theorem realDef_iff : gs1.any (realDefOf (.named x)) = objHasInit (objDecls ds x
     simp only [realDefOf, varObj_isDefinition, varObj_isTentative, varObj_sym, hi]
     cases hdi : d.init <;> simp_all
 
+omit ok in
 /-- a tentative definition of `x` in the list comes from a declaration without `extern` and without initializer -/
 theorem tent_decl {a : Obj} (ha : a ∈ gs1) (ht : isTentOf (.named x) a = true) :
     ∃ d, d ∈ objDecls ds x ∧ d.isExtern = false ∧ d.init = none ∧ a.ty = d.ty ∧ a.isStatic = d.isStatic ∧
@@ -182,7 +184,7 @@ theorem chain_of_valid (hno : objHasInit (objDecls ds x) = false) : ChainOK (tyP
     intro t ht
     simp only [tysOf, List.mem_map, List.mem_filter] at ht
     obtain ⟨a, ⟨ha, hta⟩, rfl⟩ := ht
-    obtain ⟨d, hd, _, _, hty, _⟩ := tent_decl p ok ha hta
+    obtain ⟨d, hd, _, _, hty, _⟩ := tent_decl p ha hta
     exact ⟨d, hd, hty.symm⟩
   apply chain_initial
   · intro t ht
@@ -209,7 +211,7 @@ theorem chain_of_valid (hno : objHasInit (objDecls ds x) = false) : ChainOK (tyP
         intro t ht
         simp only [tysOf, List.mem_map, List.mem_filter] at ht
         obtain ⟨a, ⟨ha, hta⟩, _⟩ := ht
-        obtain ⟨d, hd, he, _⟩ := tent_decl p ok ha hta
+        obtain ⟨d, hd, he, _⟩ := tent_decl p ha hta
         unfold objDefined
         rw [List.any_eq_true]
         exact ⟨d, hd, by simp [he]⟩
@@ -293,7 +295,7 @@ theorem data_entry (fc : Bool) {o : Obj} (ho : o ∈ gs) (hf : o.isFunction = fa
           · rfl
           · have := hu h; cases this
         have hgood : GoodTy (tyP (objDecls ds x)) ty := ⟨hw, hknown, hk hknown⟩
-        obtain ⟨hal, _⟩ := emitAlign_good ok.valid (fun d hd => ok.align_pos p hd)
+        obtain ⟨hal, _⟩ := emitAlign_good ok.valid (fun d hd => ok.align_pos hd)
           (by intro h0; rw [h0] at hmem; cases hmem) hgood
         simp only at hstat htls
         simp only [objEntry, objKind, hI, htls, ← hstat, ← hal, ← hk hknown]
@@ -308,7 +310,7 @@ theorem data_entry (fc : Bool) {o : Obj} (ho : o ∈ gs) (hf : o.isFunction = fa
     have hreal : gs1.any (realDefOf (.named x)) = false := (scanPure_kept_tent hkept hsa hda).mp hta
     have hno : objHasInit (objDecls ds x) = false := by rw [← realDef_iff p ok]; exact hreal
     have ha1 : a ∈ gs1 := scanPure_sub gs1 gs1 a hkept
-    obtain ⟨d, hd, he, hin, _, hst, htl, _, _, hhi⟩ := tent_decl p ok ha1 (by simp [isTentOf, hta, hsa])
+    obtain ⟨d, hd, he, hin, _, hst, htl, _, _, hhi⟩ := tent_decl (x := x) p ha1 (by simp [isTentOf, hta, hsa])
     have hD : objDefined (objDecls ds x) = true := by
       unfold objDefined; rw [List.any_eq_true]; exact ⟨d, hd, by simp [he]⟩
     refine ⟨hD, ?_⟩
@@ -316,14 +318,14 @@ theorem data_entry (fc : Bool) {o : Obj} (ho : o ∈ gs) (hf : o.isFunction = fa
       have := scanGlobals_good hreal (chain_of_valid p ok hno) ({ a with ty := T }) (by rw [← p.hgs]; exact ho)
         (by simp [isTentOf, hta, hsa])
       exact this
-    obtain ⟨hal, hsz⟩ := emitAlign_good ok.valid (fun d hd => ok.align_pos p hd)
+    obtain ⟨hal, hsz⟩ := emitAlign_good ok.valid (fun d hd => ok.align_pos hd)
       (by intro h0; rw [h0] at hd; cases hd) hgood
     have hstat := objValid_static ok.valid hd (fun _ => he)
     have htls := objValid_tls ok.valid hd
     have hfa : a.isFunction = false := hf
     simp only [objEntry, objKind, hno, htls, ← hstat, ← hal, ← hsz, ← hst, ← htl]
     cases hfc : fc <;> cases hs' : a.isStatic <;> cases ht' : a.isTls <;>
-      simp [emitDataVar, asmView, bindingOf, hfa, hda, hta, hhi, hs', ht', hsa]
+      simp [emitDataVar, asmView, bindingOf, hfa, hda, hta, hhi, hsa]
 
 /-- **every defined object has its definition in the result** -/
 theorem data_exists (hD : objDefined (objDecls ds x) = true) :
@@ -354,8 +356,8 @@ theorem data_exists (hD : objDefined (objDecls ds x) = true) :
     obtain ⟨o, ho, hto⟩ := hs'
     obtain ⟨a, ha, T, rfl⟩ := (scanGlobals_tyRel gs1).mem ho
     have ha1 : a ∈ gs1 := scanPure_sub gs1 gs1 a ha
-    obtain ⟨_, _, _, _, _, _, _, hfa, hda, _⟩ := tent_decl p ok ha1 hto
-    exact ⟨_, by rw [p.hgs]; exact ho, hfa, hda, isTentOf_sym hto⟩
+    obtain ⟨_, _, _, _, _, _, _, hfa, hda, _⟩ := tent_decl p ha1 hto
+    exact ⟨{ a with ty := T }, by rw [p.hgs]; exact ho, hfa, hda, isTentOf_sym hto⟩
   · unfold objHasInit at hI
     rw [List.any_eq_true] at hI
     obtain ⟨d, hd, hi⟩ := hI
@@ -365,12 +367,13 @@ theorem data_exists (hD : objDefined (objDecls ds x) = true) :
     refine ⟨_, p.mem_of_data_nt hk hnt, varObj_isFunction _ _ _ _ _ _ _, ?_, varObj_sym _ _ _ _ _ _ _⟩
     rw [varObj_isDefinition, hi]; rfl
 
-/-- a data object named `x` that is a definition exists only if `x` is defined -/
+omit ok in
+/-- a data object named `x` comes from a declaration of `x` -/
 theorem data_named_src {o : Obj} (ho : o ∈ gs) (hf : o.isFunction = false) (hs : o.sym = .named x) :
     (∃ d, d ∈ objDecls ds x) ∨ x ∈ blockExternNames ds := by
   obtain ⟨a, ha, _, T, rfl⟩ := p.data_of_mem ho hf
   rcases (allNews_kind ds 0 a ha).named hs with ⟨s, e, t, ty, init, k, hd, _⟩ | ⟨f, n, s, e, i, b, tls, ty, hd, hb, _⟩
-  · exact Or.inl ⟨_, mem_objDecls.mpr hd⟩
+  · exact Or.inl ⟨⟨s, e, t, ty, init⟩, mem_objDecls.mpr hd⟩
   · exact Or.inr (mem_blockExternNames.mpr ⟨f, n, s, e, i, b, tls, ty, hd, hb⟩)
 
 end
